@@ -73,6 +73,9 @@ fn main() {
                 }
             }
         }
+        "selftest" => {
+            util::selftest();
+        }
         id => {
             let c = match checks().into_iter().find(|c| c.id == id) {
                 Some(c) => c,
